@@ -181,6 +181,7 @@ pub fn generic_env_formula(raw: &RawF) -> F {
         props: &props,
         labels: &labels,
         cfg: FCfg::EXTENDED_WEAK,
+        binders: &gen::BINDERS,
     };
     gen::resolve_f(raw, &env)
 }
